@@ -6,6 +6,7 @@ package kaisim
 // crash the binder at that point.
 
 import (
+	k8splugins "github.com/NVIDIA/KAI-scheduler/pkg/binder/plugins/k8s-plugins"
 	"context"
 	"fmt"
 	"os"
@@ -298,6 +299,9 @@ func NewBinderActor(api *SimAPI, allocTimeout time.Duration, opts ...string) *Bi
 		if o == "dra" {
 			plugins.RegisterPlugin(newDRABinderPlugin(b))
 		}
+		if o == "k8s-plugins" {
+			plugins.RegisterPlugin(newK8sPlugins(b))
+		}
 	}
 	plugins.RegisterPlugin(gpusharing.New(b.Client, false))
 	bnd := binding.NewBinder(b.Client, b.RRS, plugins)
@@ -442,6 +446,17 @@ func newDRABinderPlugin(b *BinderActor) *draBinderPlugin {
 	real, err := binderdra.NewDynamicResourcesPlugin(handle, &k8splfeature.Features{EnableDynamicResourceAllocation: true}, 30)
 	must(err)
 	return &draBinderPlugin{real: real}
+}
+
+// newK8sPlugins: the binder's real k8s-plugins wrapper (volume binding + dynamicresources behind one plugin, registered
+// before gpusharing as cmd/binder does). Its typed clientset calls count as calls of the attempt like the DRA stub's.
+func newK8sPlugins(b *BinderActor) binderplugins.Plugin {
+	d := newDRABinderPlugin(b) // installs the call routing for the "binder-dra" clientset
+	_ = d
+	cl := b.API.ClientsFor("binder-dra")
+	p, err := k8splugins.New(cl.Kube, informers.NewSharedInformerFactory(cl.Kube, 0), 30)
+	must(err)
+	return p
 }
 
 func (p *draBinderPlugin) Name() string { return "k8s-plugins" }
